@@ -185,8 +185,8 @@ def c01d(prog, R):
     r.floor(4)
 
 
-def c01e(prog, R):
-    r = R.rule("C01.e", "writer and reader agree on the filter hash", "W,D")
+def c01e(prog, R, rid="C01.e"):
+    r = R.rule(rid, "writer and reader agree on the filter hash", "W,D")
     regs = prog.impl_of_trait_item.get("table::writer::filter::FilterWriter::register_key", [])
     if len(regs) < 2:
         r.anchor_missing("FilterWriter::register_key impls (found %d)" % len(regs))
